@@ -102,4 +102,22 @@ theorem Sys.putCtr_th_other (s : Sys) (t t2 : Nat) (c : Ctr) (h : t2 ≠ t) :
     (s.putCtr t c).th t2 = s.th t2 := by
   simp [Sys.putCtr, Sys.th, Sys.setTh, natGet_natSet_other _ _ _ _ h]
 
+/-! the history variables are invisible to every projection the operations read -/
+@[simp] theorem Sys.withG_th (s : Sys) (g : Ghost) (t : Nat) : (s.withG g).th t = s.th t := rfl
+@[simp] theorem Sys.withG_threads (s : Sys) (g : Ghost) : (s.withG g).threads = s.threads := rfl
+@[simp] theorem Sys.withG_rxs (s : Sys) (g : Ghost) : (s.withG g).rxs = s.rxs := rfl
+@[simp] theorem Sys.withG_coll (s : Sys) (g : Ghost) : (s.withG g).coll = s.coll := rfl
+@[simp] theorem Sys.withG_cyc (s : Sys) (g : Ghost) : (s.withG g).cyc = s.cyc := rfl
+@[simp] theorem Sys.withG_nextCollect (s : Sys) (g : Ghost) : (s.withG g).nextCollect = s.nextCollect := rfl
+@[simp] theorem Sys.withG_clock (s : Sys) (g : Ghost) : (s.withG g).clock = s.clock := rfl
+@[simp] theorem Sys.withG_spans (s : Sys) (g : Ghost) : (s.withG g).spans = s.spans := rfl
+@[simp] theorem Sys.withG_lspans (s : Sys) (g : Ghost) : (s.withG g).lspans = s.lspans := rfl
+@[simp] theorem Sys.withG_reporterReady (s : Sys) (g : Ghost) : (s.withG g).reporterReady = s.reporterReady := rfl
+@[simp] theorem Sys.withG_adapters (s : Sys) (g : Ghost) : (s.withG g).adapters = s.adapters := rfl
+@[simp] theorem Sys.withG_deferred (s : Sys) (g : Ghost) : (s.withG g).deferred = s.deferred := rfl
+@[simp] theorem Sys.withG_g (s : Sys) (g : Ghost) : (s.withG g).g = g := rfl
+@[simp] theorem Sys.withG_ctr (s : Sys) (g : Ghost) (t : Nat) : (s.withG g).ctr t = s.ctr t := rfl
+@[simp] theorem Sys.setTh_g (s : Sys) (t : Nat) (th : Th) : (s.setTh t th).g = s.g := rfl
+@[simp] theorem Sys.putCtr_g (s : Sys) (t : Nat) (c : Ctr) : (s.putCtr t c).g = s.g := rfl
+
 end Fastrace
